@@ -734,6 +734,10 @@ func (fc *FuncCtx) execMakeChan(fr *Frame, st *State, x *ssa.MakeChan) Value {
 	fc.setComp(st, "CH!cap", "(Array Int Int)", "(store "+cp+" "+ref+" "+sz+")")
 	cl := fc.compTerm(st, "CH!closed", "(Array Int Bool)")
 	fc.setComp(st, "CH!closed", "(Array Int Bool)", "(store "+cl+" "+ref+" false)")
+	for _, k := range []string{"CH!sends", "CH!recvs", "CH!closes"} {
+		cur := fc.compTerm(st, k, "(Array Int Int)")
+		fc.setComp(st, k, "(Array Int Int)", "(store "+cur+" "+ref+" 0)")
+	}
 	return Scalar{ref, "Int", x.Type()}
 }
 
